@@ -70,6 +70,9 @@ class G2:
         pdr = pdr or r.randint(1, 3)
         n = n or r.choice([1, 2, 3, 7, 40, 300, 520, 600])
         action = action if action is not None else r.choice([4, 12, 12, 4, 8, 2])
+        if r.random() < 0.25:
+            # further Apply Action flags next to BUFF / NOCP (DUPL, BDPN, DDPN, ...): buffering and notification follow BUFF / NOCP only
+            action |= r.choice([0x10, 0x200, 0x400, 0x1800, 0x20])
         self.events.append(kbuf(s, pdr, action, n, self.base))
         self.base += n
 
